@@ -37,7 +37,7 @@ func Gen(r *kit.Rand, tier kit.Tier, auto bool) Cfg {
 
 	c.MMUCache = r.Chance(1, 3)
 	c.MCBlocks, c.MCLevels, c.MCLatency, c.MCPortBuf = r.PickInt(1, 2, 4), r.PickInt(1, 2, 5), uint64(r.PickInt(1, 10, 100)), buf()
-	c.GMMU = r.Chance(1, 4)
+	c.GMMU = !auto && r.Chance(1, 4) // the GMMU does not allocate pages
 	c.GMMULatency, c.GMMUDevice = r.PickInt(0, 1, 5), uint64(r.PickInt(1, 2))
 	c.MMULatency, c.MMUInflight, c.MMUPortBuf = r.PickInt(0, 1, 5, 10), r.PickInt(1, 2, 4, 16), buf()
 	c.AutoAlloc = auto
@@ -154,8 +154,8 @@ func (c *Cfg) names() []string {
 	return append(n, "MMU")
 }
 
-// addUpdates appends page-table update histories and expands them into steps.
-func addUpdates(r *kit.Rand, c *Cfg) {
+// AddUpdates appends page-table update histories and expands them into steps.
+func AddUpdates(r *kit.Rand, c *Cfg) {
 	if len(c.Pages) == 0 {
 		return
 	}
@@ -374,7 +374,7 @@ func init() {
 		Gen: func(r *kit.Rand, t kit.Tier) Cfg {
 			c := Gen(r, t, false)
 			if r.Chance(1, 3) {
-				addUpdates(r, &c)
+				AddUpdates(r, &c)
 			}
 
 			return c
